@@ -192,6 +192,18 @@ def gen(rng, idx, tier):
     gdef_mode = rng.choice(["none", "none", "categories", "user_gdef"])
     if stratum == "unpaired_mark_anchor":
         gdef_mode = rng.choice(["categories", "user_gdef", "none"])
+    based_mark_anchor = None
+    if gdef_mode != "none" and stratum == "default" and rng.random() < 0.35:
+        # a glyph CLASSED base that kept a paired '_x' anchor next to its ordinary base anchors
+        # (a spacing accent): with classes given it is a base and nothing else
+        cand = [g for g in glyphs if role.get(g["name"]) == "base"
+                and any(not a["name"].startswith("_") for a in g["anchors"])]
+        keys = sorted({a["name"] for g in glyphs for a in g["anchors"]
+                       if not a["name"].startswith("_") and not a["name"][-1:].isdigit()})
+        if cand and keys:
+            g = rng.choice(cand)
+            g["anchors"].append({"name": "_" + rng.choice(keys), "x": coord(rng), "y": coord(rng)})
+            based_mark_anchor = g["name"]
     if gdef_mode != "none":
         cats = {}
         for n, ro in role.items():
@@ -204,7 +216,7 @@ def gen(rng, idx, tier):
                 return "[" + " ".join(ms) + "]" if ms else ""
             features += "\ntable GDEF {\n    GlyphClassDef %s, %s, %s, ;\n} GDEF;\n" % (
                 cl("base"), cl("ligature"), cl("mark"))
-    return {"stratum": stratum, "gdef_mode": gdef_mode,
+    return {"stratum": stratum, "gdef_mode": gdef_mode, "based_mark_anchor": based_mark_anchor,
             "ufo": {"glyphs": glyphs, "features": features, "lib": lib,
                     "info": {"unitsPerEm": 1000, "familyName": "T", "styleName": "R"}},
             "rules": rules, "lib": rng.choice(["defcon", "ufoLib2"]),
@@ -321,6 +333,8 @@ def run(case):
         bump("grouped_fonts")
     if classes is not None:
         bump("category_fonts")
+    if case.get("based_mark_anchor"):
+        bump("fonts_with_base_classed_glyph_carrying_mark_anchor")
     if any(float(a["x"]) != int(a["x"]) or float(a["y"]) != int(a["y"])
            for g in spec["glyphs"] for a in g["anchors"]):
         bump("fractional_anchor_fonts")
